@@ -265,6 +265,8 @@ fn write_history(cfg: &Cfg, rng: &mut Rng, case: &str) {
     let mut used_idx: u64 = u16::from_le_bytes(r0.pread(r0.gpa + 2 * PAGE - 64 + 2, 2).try_into().unwrap_or([0, 0])) as u64;
     let mut table_changed = false;
     let mut refused_logs: Vec<Log> = Vec::new();
+    let mut superseded_logs: Vec<Log> = Vec::new();
+    let mut relogged = false;
     let mut ring_ok = ring_ok;
     for step in 0..cfg.pick(40, 200) {
         // occasionally a SET_LOG_BASE whose log covers the low regions only: it must be refused and
@@ -289,6 +291,23 @@ fn write_history(cfg: &Cfg, rng: &mut Rng, case: &str) {
                 }
                 ring_ok = false;
             }
+        }
+        // occasionally a second, ample log replaces the first: from the acknowledgement on every write
+        // - also into regions added later - belongs to the new log, none to the superseded one
+        if step > 3 && rng.chance(1, 16) {
+            let regs_now: Vec<&Reg> = cur.iter().map(|i| if *i >= 100 { &extra[*i - 100] } else { &lay.regs[*i] }).collect();
+            let all_now: Vec<&Reg> = regs_now.iter().copied().chain(extra.iter()).collect();
+            let need = highest_page(&all_now) / 8 + 1;
+            let newlog = Log::new(need + rng.below(32), rng.below(3));
+            if w.fe.as_mut().unwrap().set_log_base(0, Some(newlog.region())).is_err() {
+                report::violation("C15:set_log_base:ample-log-rejected", jo! {"log_size" => newlog.size, "needed" => need, "history" => trace.iter().rev().take(8).rev().cloned().collect::<Vec<String>>()}, cfg.replay(case));
+                return;
+            }
+            report::count("set_log_base.replaced_midway", 1);
+            trace.push(format!("SET_LOG_BASE(second log, size={})", newlog.size));
+            let old = std::mem::replace(&mut log, newlog);
+            superseded_logs.push(old);
+            relogged = true;
         }
         // occasionally change the memory table (logging must stay in force)
         if step > 3 && rng.chance(1, 10) {
@@ -354,12 +373,21 @@ fn write_history(cfg: &Cfg, rng: &mut Rng, case: &str) {
                 return;
             }
         }
+        for sl in &superseded_logs {
+            if let Some((i, got, want)) = sl.diff() {
+                report::violation("C15:log-content:write-into-superseded-log",
+                    jo! {"history" => trace.iter().rev().take(12).rev().cloned().collect::<Vec<String>>(), "file_offset" => i, "got" => got, "expected" => want}, cfg.replay(case));
+                return;
+            }
+        }
         if let Some((i, got, want)) = log.diff() {
             let in_window = (i as u64) >= log.offset && (i as u64) < log.offset + log.size;
             let kind = if !in_window {
                 "outside-log-window"
             } else if got & !want != 0 {
                 "spurious-bit"
+            } else if relogged {
+                "write-after-second-set-log-base-not-logged"
             } else if !refused_logs.is_empty() {
                 "write-after-refused-set-log-base-not-logged"
             } else if table_changed {
@@ -448,6 +476,69 @@ fn concurrent(cfg: &Cfg, rng: &mut Rng, case: &str) {
     report::sample(&format!("conc{}", threads / 6), jo! {"concurrent_writers" => threads, "rounds" => rounds, "shared_log_bytes" => J::hex(&want)});
 }
 
+/// Writers keep writing (each owns one page = one log byte, checks its bit after every write and
+/// clears it) while SET_LOG_BASE is issued over and over for the same log: swapping a region's
+/// bitmap must never leave a moment in which a write is not logged.
+fn concurrent_relog(cfg: &Cfg, rng: &mut Rng, case: &str) {
+    let Some(mut w) = world() else { return };
+    let writers = 4u64;
+    let base_page = 8 * rng.range(1, 20);
+    let reg = Reg::new(base_page * PAGE, writers * 8 * PAGE, 0x7100_0000_0000, 0);
+    if w.fe.as_mut().unwrap().set_mem_table(&[reg.info()]).is_err() {
+        report::inconclusive("set_mem_table");
+        return;
+    }
+    let needed = (base_page + writers * 8) / 8 + 1;
+    let log = Log::new(needed + 8, 1);
+    if w.fe.as_mut().unwrap().set_log_base(0, Some(log.region())).is_err() {
+        report::inconclusive("set_log_base");
+        return;
+    }
+    let Some(mem) = w.mem() else { return };
+    let stop = Arc::new(AtomicBool::new(false));
+    let missed = Arc::new(AtomicU64::new(0));
+    let writes = Arc::new(AtomicU64::new(0));
+    let lfd = log.file.as_raw_fd();
+    let mut hs = Vec::new();
+    for t in 0..writers {
+        let (m, st, mi, wr) = (mem.clone(), stop.clone(), missed.clone(), writes.clone());
+        let gpa = (base_page + 8 * t) * PAGE + 7;
+        let byte = log.offset + base_page / 8 + t;
+        hs.push(std::thread::spawn(move || {
+            while !st.load(Ordering::SeqCst) {
+                let _ = m.memory().write(&[1u8], GuestAddress(gpa));
+                wr.fetch_add(1, Ordering::Relaxed);
+                if sys::pread(lfd, byte, 1) != [1u8] {
+                    mi.fetch_add(1, Ordering::SeqCst);
+                }
+                sys::pwrite(lfd, byte, &[0]);
+            }
+        }));
+    }
+    let relogs = cfg.pick(300, 6000);
+    let mut failed = None;
+    for k in 0..relogs {
+        if let Err(e) = w.fe.as_mut().unwrap().set_log_base(0, Some(log.region())) {
+            failed = Some(format!("{e:?} at repetition {k}"));
+            break;
+        }
+    }
+    stop.store(true, Ordering::SeqCst);
+    for h in hs {
+        let _ = h.join();
+    }
+    report::eval(1);
+    report::count("concurrent_relog.set_log_base", relogs);
+    report::count("concurrent_relog.writes", writes.load(Ordering::SeqCst));
+    report::distinct_str(&format!("relog:{base_page}"));
+    if let Some(e) = failed {
+        report::violation("C15:set_log_base:ample-log-rejected", jo! {"repeated_set_log_base" => e}, cfg.replay(case));
+    } else if missed.load(Ordering::SeqCst) > 0 {
+        report::violation("C15:concurrent-relog:write-not-logged", jo! {"writers" => writers, "set_log_base_repetitions" => relogs, "writes" => writes.load(Ordering::SeqCst), "writes_whose_bit_was_missing" => missed.load(Ordering::SeqCst)}, cfg.replay(case));
+    }
+    report::sample("relog", jo! {"writers" => writers, "set_log_base_repetitions" => relogs, "writes" => writes.load(Ordering::SeqCst)});
+}
+
 pub fn run(cfg: &Cfg) {
     report::assume("regions are page-aligned (as the statement requires); the page-set oracle {gpa/4096 ..= (gpa+len-1)/4096}, LSB first, is computed by the harness from the number of bytes the write call reports as written");
     let mut rng = Rng::new(cfg.seed.wrapping_mul(0xc15).wrapping_add(cfg.shard.wrapping_mul(6151)));
@@ -458,6 +549,7 @@ pub fn run(cfg: &Cfg) {
                 match kind {
                     "size" => log_sizes(cfg, &mut r, o),
                     "hist" => write_history(cfg, &mut r, o),
+                    "relog" => concurrent_relog(cfg, &mut r, o),
                     _ => concurrent(cfg, &mut r, o),
                 }
             }
@@ -479,5 +571,9 @@ pub fn run(cfg: &Cfg) {
     for _ in 0..cfg.pick(2, 8) {
         let case = format!("conc:{}", rng.0);
         concurrent(cfg, &mut rng, &case);
+    }
+    for _ in 0..cfg.pick(1, 4) {
+        let case = format!("relog:{}", rng.0);
+        concurrent_relog(cfg, &mut rng, &case);
     }
 }
